@@ -1,6 +1,7 @@
 import SodiumVerif.Model.GcScript
 import SodiumVerif.Model.SchedScript
 import SodiumVerif.Spec.Script
+import SodiumVerif.Model.TxnScript
 
 open SodiumVerif
 
@@ -17,6 +18,13 @@ partial def nodeLoop (h : IO.FS.Stream) (out : IO.FS.Stream) (s : SchedScript.S)
   let (s', o) := SchedScript.step s line
   out.putStrLn o
   nodeLoop h out s'
+
+partial def txnLoop (h : IO.FS.Stream) (out : IO.FS.Stream) (s : TxnScript.S) : IO Unit := do
+  let line ← h.getLine
+  if line.isEmpty then return ()
+  let (s', o) := TxnScript.step s line
+  out.putStrLn o
+  txnLoop h out s'
 
 partial def readAll (h : IO.FS.Stream) (acc : Array String) : IO (Array String) := do
   let line ← h.getLine
@@ -41,4 +49,5 @@ def main (args : List String) : IO UInt32 := do
   | ["gc"] => gcLoop stdin stdout {}; return 0
   | ["node"] => nodeLoop stdin stdout {}; return 0
   | ["spec"] => specMain stdin stdout; return 0
+  | ["txn"] => txnLoop stdin stdout {}; return 0
   | _ => IO.eprintln "usage: driver gc|node|api|spec < script"; return 2
